@@ -51,6 +51,19 @@ duplicates` (ghost inverse map), which follows from the proved clause `strictly 
 model.groups by an induction this module does not carry out (the same assumption as in c02_remove_reactions_ctx) - needed for
 `nothing twice` among the GADD entries only.
 Engine: NO change of pyvc.  contracts/c02_remove_metabolites.py: its hooks now also answer for this contract's key (one line).
+The trace clauses are stated under a FREE Boolean constant (`GATE -> clause`, see `_gated`): proved for both of its values, hence for
+True; this keeps the trace quantifiers out of the way in the obligations that restate the no-context post-condition.
+
+Mutation trials (tools/mutate_and_run.sh cobra/core/model.py ... contracts.c02_remove_metabolites_ctx --hooks HOOKS
+"Model.remove_metabolites[context]"), each NOT verified (named obligations `unknown`) in all four cases:
+  R1 the group undo skipped (`pass`)                                          loop#1/inv-preserve.7 .9 (+ list:keep post.19)
+  R2 the SETM registration skipped (`pass`)                                   loop#4/inv-preserve.2 .5 .6 (list), post.24-.32 (one)
+  R3 __iadd__ registered with metabolite_list[1:] (off by one)                exit=return#1/post.22-.25, .30-.32
+  R4 the group undo registered twice                                          loop#1/inv-preserve.7 .9 .10
+  R5 the inner loop runs over self.groups instead of associated_groups (an
+     undo for a membership that did not exist)                                loop#1/inv-init.1, inv-preserve.2 .9 .10
+Lemma guards: `False` does not follow from the lemma hypotheses, the negated goals are not provable, `model-pointers` is not provable
+without its extra hypothesis.
 """
 import z3
 import cobra  # noqa
